@@ -1,7 +1,7 @@
 #!/bin/bash
 # re-run all checks against every seed (static scan only) and record which checks catch it; prints seeds not caught by their own property
 cd /verif
-ls -d seeded/*/ | xargs -P 5 -I{} sh -c 'python3 tools/seedcheck.py {} --skip-suite --skip-demo --rescan > /dev/null 2>&1'
+ls -d seeded/*/ | xargs -P ${PAR:-5} -I{} sh -c 'python3 tools/seedcheck.py {} --skip-suite --skip-demo --rescan > /dev/null 2>&1'
 python3 - <<'PY'
 import json, glob, os
 miss = []; n = 0
